@@ -239,6 +239,20 @@ SPECS["C13"] = node_spec(
     "DESIGN.md section 7, C13",
     "Theorems: Props/C13.v over M/Raft.v, M/Progress.v, M/Inflights.v, M/RaftLog.v. Tie: pointwise differential, projection progress+replication traffic+uncommitted+results+log.")
 
+SPECS["C07"] = node_spec(
+    "C07", ["result", "rawnode", "log"], "ready_contract",
+    "Props/C07.v (38 pinned theorems over every RawNode state unless an invariant is named): has_ready is true exactly when ready() would be non-empty; must_sync iff entries, a snapshot or a term/vote change are included; a Ready carries exactly the unstable suffix, the hard/soft state iff changed (then current), number = max_number+1 and pushes exactly one record; committed entries handed out are, under the RaftLog representation invariant of C14, limit_size of the logical log between max(commit_since_index+1, first) and min(committed, persisted+limit): contiguous, equal to the log's entries, above commit_since_index, at most committed, and with limit 0 only persisted entries (the former overflow defect for limit u64::MAX, fixed in /repo, is pinned as now total); commit_since_index never decreases and moves to the last handed-out entry or the snapshot index (then no committed entries in that Ready); on_persist_ready removes exactly the records up to the number and reports the last snapshot / (index, term); commit_ready panics exactly on the three contract breaches; a Ready that changes term or vote carries no immediate message and immediate messages occur only for a leader with no such change outstanding (fix 4e5e493); advancing the Ready just produced cannot panic and the next Ready carries nothing twice; lifetime level: over any non-panicking sequence of RawNode calls and storage writes from RawNode::new, the committed entries handed out have exactly the indexes start+1 .. commit_since_index in order, restarting at the snapshot index after a snapshot Ready.",
+    "preservation of the RaftLog representation invariant by node-level step/tick is a hypothesis at hand-out points (it is C14's invariant, proved there for the RaftLog operations); 'no altered entry over time' relies on committed-prefix immutability (C05/C01 at P level); the storage contents after each persisted Ready belong to the application.",
+    "DESIGN.md section 7, C07",
+    "Theorems: Props/C07.v over M/RawNode.v, M/Raft.v, M/RaftLog.v. Tie: pointwise differential, projection results (Ready/LightReady contents) + RawNode bookkeeping + log.")
+
+SPECS["C08"] = node_spec(
+    "C08", ["read", "result", "msgs.other", "msgs.resp"], "read_index",
+    "Props/C08.v (61 pinned theorems, every node state and message): the ReadOnly queue behaves as a duplicate-free FIFO with one pending entry per context (add, ack, advance; advance pops exactly the prefix through the acknowledged context, never panics under the invariant); a leader without a commit in its own term drops read requests; in Safe mode a request is recorded with the leader's commit index and one ctx-tagged heartbeat goes to every peer; read states and MsgReadIndexResp are released in handle_heartbeat_response only for a pending context whose acknowledgements plus the sender form a quorum, and exactly the queue prefix is served with the recorded indexes; the complete account of where read states come from in step (three origins) and that every other message type leaves them alone; responses are routed to the originating node only; every reset (follower/candidate/leader transition, higher term) drops all pending reads; heartbeat responses echo the context at the follower's term, lower-term heartbeats get no ack; step never lowers the commit index; RawNode::new starts with no pending read. Defect found by the monitor and fixed in /repo (6a9ae91): a removed/demoted leader with one remaining voter answered locally through the single-voter shortcut - regression guard pinned (a Safe leader that is not a voter never answers at once).",
+    "the cluster-level linearizability clause itself (index >= every commit index reached when the read was issued; a superseded leader stays silent) needs leader completeness and quorum intersection across nodes and is not proved as a theorem; it is exercised by the read_index monitor in the search only. The role of unique contexts is not proved.",
+    "DESIGN.md section 7, C08",
+    "Theorems: Props/C08.v over M/Raft.v (ReadOnly, step), M/RawNode.v. Tie: pointwise differential, projection read-only state + read states + results + heartbeat/read traffic.")
+
 SPECS["C09"] = node_spec(
     "C09", ["conf", "hard", "log", "result"], "conf_change",
     "Props/C09.v (46 pinned theorems, every node state and input): the proposal filter is characterised completely (a conf-change entry is kept iff nothing is pending and it fits the joint state, otherwise replaced by an empty normal entry; a decode error drops the proposal; at most one survives a proposal); the leader invariant 'every conf-change entry above applied is at or below pending_conf_index' is established by become_leader and preserved by every function of the Raft and RawNode models; no node campaigns (timeout, MsgHup, MsgTimeoutNow) while has_unapplied_conf_changes answers true, and a (pre-)candidate that learns a committed conf change through vote traffic steps down; a non-promotable node never campaigns by tick or MsgTimeoutNow and promotable = voter after every configuration switch; a rejected apply_conf_change leaves the node untouched and a successful one yields exactly the ConfChange model's configuration (C12); auto-leave is proposed once.",
